@@ -106,6 +106,7 @@ type Result struct {
 	Unsupported int      `json:"unsupported,omitempty"`
 	External    []string `json:"external,omitempty"` // instantiated allow-listed external IP
 	TBSyntax    int      `json:"tbsyntax,omitempty"`
+	ArrayFiltered int    `json:"arrayfiltered,omitempty"` // vsim multi-driver reports on arrays proved spurious (arrays.go)
 	Us          int64    `json:"us,omitempty"` // wall time of the job in the worker (diagnostics only, never an oracle)
 }
 
@@ -321,8 +322,21 @@ func render(j Job) (files map[string]string, skipped string, err error) {
 var propertyClass = map[string]bool{"syntax": true, "undeclared": true, "undefined-module": true, "port-count": true,
 	"assign-kind": true, "multi-driver": true, "duplicate-decl": true}
 
-func tplOf(files map[string]string, f string) string {
-	c := files[f]
+// tplOf says whether the module enclosing the given line is an instance of the bmstack template (the template is
+// also appended to processor files by the call/stack opcodes, so the file name alone does not tell).
+func tplOf(files map[string]string, f string, line int) string {
+	ls := strings.Split(files[f], "\n")
+	if line <= 0 || line > len(ls) {
+		return ""
+	}
+	lo, hi := line-1, line-1
+	for lo > 0 && !strings.HasPrefix(strings.TrimSpace(ls[lo]), "module ") {
+		lo--
+	}
+	for hi < len(ls)-1 && !strings.HasPrefix(strings.TrimSpace(ls[hi]), "endmodule") {
+		hi++
+	}
+	c := strings.Join(ls[lo:hi+1], "\n")
 	if strings.Contains(c, "readneed") && strings.Contains(c, "writeneed") && strings.Contains(c, "recvSM") {
 		return "bmstack"
 	}
@@ -379,7 +393,11 @@ func lintSet(files map[string]string, keep string) Result {
 		if !propertyClass[x.Class] {
 			continue
 		}
-		r.Diags = append(r.Diags, D{Class: x.Class, File: x.File, Module: x.Module, Ident: x.Ident, Msg: x.Msg, Line: x.Line, Text: srcLine(files, x.File, x.Line), Tpl: tplOf(files, x.File)})
+		if x.Class == "multi-driver" && arrayMultiDriverIsSpurious(d, x.Module, x.Ident) {
+			r.ArrayFiltered++ // engine imprecision (whole-array approximation), see arrays.go
+			continue
+		}
+		r.Diags = append(r.Diags, D{Class: x.Class, File: x.File, Module: x.Module, Ident: x.Ident, Msg: x.Msg, Line: x.Line, Text: srcLine(files, x.File, x.Line), Tpl: tplOf(files, x.File, x.Line)})
 	}
 	if hasTB {
 		_, tpd := vsim.Parse(map[string]string{"bondmachine_tb.v": tb})
@@ -405,6 +423,22 @@ func lintSet(files map[string]string, keep string) Result {
 		}
 		return x.Ident < y.Ident
 	})
+	// one syntax diagnostic per source line (the lexer and the parser may both complain about the same token)
+	{
+		seenLine := map[string]bool{}
+		out := r.Diags[:0]
+		for _, x := range r.Diags {
+			if x.Class == "syntax" {
+				k := x.File + ":" + strconv.Itoa(x.Line)
+				if seenLine[k] {
+					continue
+				}
+				seenLine[k] = true
+			}
+			out = append(out, x)
+		}
+		r.Diags = out
+	}
 	if keep != "" {
 		os.MkdirAll(keep, 0o755)
 		for n, c := range files {
